@@ -460,6 +460,11 @@ func c02Corrupt(c *Ctx) {
 							bad[0] = '-'
 						}
 					}
+					if r.IntN(3) == 0 {
+						// what the optional text after '+' may be — the name again — behind another first byte; or the
+						// header line itself, duplicated
+						bad = append([]byte{pick(r, []byte("-@ >!"))}, rec.Name...)
+					}
 					text := line(name, rec.Sequence, bad, rec.Quals)
 					k.Input("kind", fmt.Sprintf("'+' line replaced by %q", bad))
 					k.Input("text", text)
